@@ -1174,6 +1174,9 @@ class RDD:
         boundaries = [0]
         for w in weights:
             boundaries.append(boundaries[-1] + w / sum_weights)
+        # rounding can leave the accumulated last boundary just below 1.0,
+        # which would drop the elements whose draw falls above it
+        boundaries[-1] = 1.0
         random.seed(seed)
 
         lists = [[] for _ in weights]
